@@ -123,8 +123,10 @@ Section Writes.
     end.
   Definition drop_key (f : string) (al : list (string * string)) : list (string * string) :=
     filter (fun q => negb (String.eqb (fst q) f)) al.
+  Definition uadd (f : string) (l : list string) : list string := if mem f l then l else f :: l.
+  Definition uapp (a b : list string) : list string := fold_right uadd b a.
   Definition akill (st : astate) (f : string) : astate :=
-    mkAS (drop_key f (alias st)) (f :: clob st).
+    mkAS (drop_key f (alias st)) (uadd f (clob st)).
   Definition akills (st : astate) (fs : list string) : astate := fold_left akill fs st.
   Definition acopy (st : astate) (d s : string) : astate :=
     match aval st s with
@@ -137,10 +139,14 @@ Section Writes.
     | None, None => true
     | _, _ => false
     end.
-  (* join of the two branches of an undecided `if` *)
+  (* join of the two branches of an undecided `if`: an alias entry survives when it is what
+     BOTH branches say about that field *)
+  Definition both_say (s1 s2 : astate) (q : string * string) : bool :=
+    opt_eqb (aval s1 (fst q)) (Some (snd q)) && opt_eqb (aval s2 (fst q)) (Some (snd q)).
   Definition ajoin (s1 s2 : astate) : astate :=
-    mkAS (filter (fun q => opt_eqb (aval s2 (fst q)) (Some (snd q))) (alias s1))
-         (app (clob s1) (app (clob s2) (app (map fst (alias s1)) (map fst (alias s2))))).
+    let a1 := filter (both_say s1 s2) (alias s1) in
+    mkAS (app a1 (filter (fun q => both_say s1 s2 q && negb (mem (fst q) (map fst a1))) (alias s2)))
+         (uapp (clob s1) (uapp (clob s2) (uapp (map fst (alias s1)) (map fst (alias s2))))).
 
   Fixpoint aev (e : event) (st : astate) {struct e} : astate :=
     let arun := (fix arun (l : list event) (st : astate) {struct l} : astate :=
@@ -214,7 +220,7 @@ Definition sc_state_fields : list string :=
    "d.qfrc_applied"; "d.xfrc_applied"; "d.eq_active"; "d.mocap_pos"; "d.mocap_quat"; "d.userdata"].
 
 Definition restored (tab : inplace_tab) (evs : list event) (fields : list string) : bool :=
-  forallb (fun f => opt_eqb (aval (arun tab evs a0) f) (Some f)) fields.
+  let st := arun tab evs a0 in forallb (fun f => opt_eqb (aval st f) (Some f)) fields.
 
 (* substring test *)
 Fixpoint contains (sub s : string) : bool :=
